@@ -248,15 +248,9 @@ func cmdCheck(args []string) {
 		tmo = 30000
 	}
 	wantRetry := func(name string) bool {
-		if claims.claimed(name) {
-			return true
-		}
-		for _, k := range known {
-			if k.Property == *prop && globToRe(k.Obligation).MatchString(name) {
-				return true
-			}
-		}
-		return false
+		// obligations of open findings are expected to fail: they get the short budget of unclaimed
+		// obligations (a timeout counts as "still failing"), not the racing retries
+		return claims.claimed(name)
 	}
 	results := verifyFuncs(P, fns, solveOpts{dir: scratch, timeoutMs: tmo, thorough: *tier == "thorough", seed: seed, keepFiles: true, wantRetry: wantRetry, sweepFlags: cfg.SweepFlags}, 16)
 
